@@ -89,6 +89,23 @@ def pairs(tier):
                 if opt[1] == 'samelen':
                     continue
                 out.append({'kind': 'json', 'a': a, 'b': b, 'opt': list(opt)})
+    # mappings with renamed keys and values of mixed type: the only inputs for which the bipartite matcher has a real
+    # choice, and for which the order "list sub-edits first" vs "refine first" can matter
+    vals = ('abcdefgh', 'abcdefgx', 12345678) if tier == 'quick' else ('abcdefgh', 'abcdefgx', 12345678, 12345679, 1, 'x')
+    for v1, v2, w1, w2 in itertools.product(vals, repeat=4):
+        for ds in ('auto', 'match'):
+            out.append({'kind': 'json', 'a': {'k1': v1, 'k2': v2}, 'b': {'j1': w1, 'j2': w2}, 'opt': [ds, 'on']})
+    # lists whose elements are mappings that share a large unchanged part and differ in one renamed key: interior cells
+    # of the Levenshtein matrix then hold edits that are complete long before their bounds are definitive
+    bulk = {'x': 'aaaaaaaa', 'y': 'bbbbbbbb'}
+    variants = [dict(bulk, name='alice smith'), dict(bulk, nome='alice smyth'), {'q': 1}]
+    if tier != 'quick':
+        variants.append(dict(bulk, name='alice smyth'))
+    seqs2 = [list(t) for t in itertools.product(variants, repeat=2)] + [[v] for v in variants]
+    for a in seqs2:
+        for b in seqs2:
+            if a != b and (len(a) == 2 or len(b) == 2):
+                out.append({'kind': 'json', 'a': a, 'b': b, 'opt': ['auto', 'on']})
     for a, b in (('ab', 'ba'), ('abc', 'b'), ('a', 'bab'), ('aab', 'abb')):
         out.append({'kind': 'string', 'a': a, 'b': b, 'opt': ['auto', 'on']})
     xs = pairspace.xml_elements('quick')
